@@ -57,8 +57,9 @@ RecAllowed(r, c) ==
 SubOK ==
     /\ nextSub <= Len(subs)
     /\ IF mode = "single" THEN subs[nextSub] = Graph
-       ELSE subs[nextSub] \in ConnComps(Graph)
-    /\ \A i \in 1..(nextSub - 1) : subs[i] \cap subs[nextSub] = {}
+       ELSE IF T.strict THEN subs[nextSub] \in ConnComps(Graph)     \* C04's check
+       ELSE subs[nextSub] \subseteq Graph                           \* other checks take the split as observed
+    /\ T.strict => \A i \in 1..(nextSub - 1) : subs[i] \cap subs[nextSub] = {}
     /\ T.closure => Graph = DepClosure(Targets)        \* the engine built the graph from targets
 
 AttGuard(w, c) ==
@@ -66,6 +67,7 @@ AttGuard(w, c) ==
     /\ cur[w] # 0
     /\ c \in SubAll(cur[w])
     /\ c \notin AttemptedIn(cur[w])                                   \* AtMostOnce
+    /\ c \in Graph => c \notin Attempted                              \* AtMostOnce, across sub-graphs
     /\ c \in Graph => \A d \in DepSet(c) \cap Graph : d \in Attempted  \* DepsBefore
 
 (* "exactly the missing required dependencies and unsatisfied groups": the  *)
@@ -126,7 +128,7 @@ DiagAtt ==
     IF ~(w \in DOMAIN cur /\ c \in Comp) THEN "att.shape"
     ELSE IF cur[w] = 0 THEN "att.no-subgraph"
     ELSE IF c \notin SubAll(cur[w]) THEN "PartitionExact.foreign-component"
-    ELSE IF c \in AttemptedIn(cur[w]) THEN "AtMostOnce.attempted-twice"
+    ELSE IF c \in AttemptedIn(cur[w]) \/ (c \in Graph /\ c \in Attempted) THEN "AtMostOnce.attempted-twice"
     ELSE IF c \in Graph /\ ~(\A d \in DepSet(c) \cap Graph : d \in Attempted) THEN "DepsBefore"
     ELSE LET e == Eff(inst, c) IN
          IF e.calls # Ev.calls THEN
